@@ -11,6 +11,7 @@ import DG.TextPos
 import DG.Exports
 import DG.EraseProto
 import DG.Trace
+import DG.FcPkg
 /-! Line-protocol driver: one request per line on stdin, one answer per line on stdout. -/
 open DG DG.Sexp
 
@@ -266,6 +267,37 @@ def handle (st : DState) (req : Sexp) : DState × String :=
         | some s => joinSp s.tokens
         | none => "OUT-OF-FUEL")
     | _, _ => (st, "bad-op")
+  | .list [.atom "fc-uncached", stop, .list (.atom "entries" :: es), .list (.atom "mods" :: ms)] =>
+    let mres? : Sexp → Option DG.FcPkg.MRes := fun
+      | .list [a, b, c] => do pure { spec := ← nat? a, hash := ← nat? b, diag := ← bool? c }
+      | _ => none
+    let showRes : Nat × DG.FcPkg.Res → String := fun
+      | (s, .output) => s!"ok:{s}"
+      | (s, .diags ds) => s!"err:{s}:[{",".intercalate (ds.map toString)}]"
+    match bool? stop, nats? es, ms.mapM mres? with
+    | some stop, some es, some ms =>
+      let p : DG.FcPkg.Pkg := { entrypoints := es, mods := ms, stopAtFirst := stop }
+      (st, joinSp ((DG.FcPkg.uncached p).map showRes) ++ " | " ++
+        joinSp ((DG.FcPkg.cacheItems p).map fun (s, i) => match i with
+          | .info h => s!"info:{s}:{h}" | .diagnostic h => s!"diag:{s}:{h}"))
+    | _, _, _ => (st, "bad-op")
+  | .list [.atom "fc-cached", .list (.atom "entries" :: es), .list (.atom "items" :: is), .list (.atom "now" :: hs)] =>
+    let item? : Sexp → Option (Nat × DG.FcPkg.CItem) := fun
+      | .list [a, .atom "info", h] => do pure ((← nat? a), .info (← nat? h))
+      | .list [a, .atom "diag", h] => do pure ((← nat? a), .diagnostic (← nat? h))
+      | _ => none
+    let pair? : Sexp → Option (Nat × Nat) := fun
+      | .list [a, b] => do pure ((← nat? a), (← nat? b))
+      | _ => none
+    let showRes : Nat × DG.FcPkg.Res → String := fun
+      | (s, .output) => s!"ok:{s}"
+      | (s, .diags ds) => s!"err:{s}:[{",".intercalate (ds.map toString)}]"
+    match es.mapM nat?, is.mapM item?, hs.mapM pair? with
+    | some entries, some items, some now =>
+      if DG.FcPkg.valid items (fun s => (now.lookup s).getD 0) then
+        (st, "valid " ++ joinSp ((DG.FcPkg.cachedResult entries items).map showRes))
+      else (st, "stale")
+    | _, _, _ => (st, "bad-op")
   | .list [.atom "valid"] =>
     (st, match st.graph.valid with | some e => e.show | none => "ok")
   | other =>
